@@ -178,6 +178,11 @@ def run_case(case, n_draws=3000):
     allv, sols = r
     if not sols:
         return [], info
+    # every generated system orders a before something; a candidate of the structural reducer that lost the directive
+    # claims nothing about a's distribution
+    orders_ = [st for st in stmts if isinstance(st, list) and st and st[0] == "order"]
+    if "a" not in names or not any("a" in st[1] for st in orders_) or any("a" in st[2] for st in orders_):
+        return [], info
     ia = names.index("a")
     comp = {}
     for s in sols:
